@@ -240,7 +240,7 @@ func FuzzNode(seed int64, steps int, idMul uint64) *Cluster {
 					m.Commit = new(llast)
 				}
 				if rng.Intn(3) == 0 {
-					m.Context = []byte{byte(rng.Intn(3)), 0, 0, 0, 0, 0, 0, 0}
+					m.Context = []byte(fmt.Sprintf("r%d", rng.Intn(6)))
 				}
 			case pb.MsgSnap:
 				si := pickIdx()
@@ -262,13 +262,13 @@ func FuzzNode(seed int64, steps int, idMul uint64) *Cluster {
 					m.Entries = append(m.Entries, &pb.Entry{Data: make([]byte, rng.Intn(50))})
 				}
 			case pb.MsgReadIndex, pb.MsgReadIndexResp:
-				m.Entries = []*pb.Entry{{Data: []byte(fmt.Sprintf("r%d", rng.Intn(10)))}}
+				m.Entries = []*pb.Entry{{Data: []byte(fmt.Sprintf("r%d", rng.Intn(6)))}}
 				if ty == pb.MsgReadIndex {
 					m.Term = nil
 				}
 			case pb.MsgHeartbeatResp:
 				if rng.Intn(2) == 0 {
-					m.Context = []byte{byte(rng.Intn(4)), 0, 0, 0, 0, 0, 0, 0}
+					m.Context = []byte(fmt.Sprintf("r%d", rng.Intn(6))) // the read contexts used below
 				}
 			case pb.MsgVote, pb.MsgPreVote:
 				if rng.Intn(4) == 0 {
